@@ -177,3 +177,73 @@ Proof.
   - simpl. rewrite concat_split_chunks. apply ns_munge.
   - unfold measure. rewrite <- sumlen_concat, concat_split_chunks. unfold munge. rewrite map_length. lia.
 Qed.
+
+(* ---- rows only contain characters of the (munged) text ------------------------------------------------- *)
+Lemma forallb_concat : forall (p : Z -> bool) l, forallb p (concat l) = forallb (forallb p) l.
+Proof. induction l as [|a t IH]; [reflexivity|]. cbn [concat forallb]. rewrite forallb_app, IH. reflexivity. Qed.
+Lemma forallb_firstn' : forall (p : Z -> bool) n s, forallb p s = true -> forallb p (firstn n s) = true.
+Proof.
+  induction n as [|n IH]; intros [|x t] H; cbn [firstn forallb] in *; auto.
+  apply andb_prop in H. destruct H as [H1 H2]. rewrite H1. apply IH. exact H2.
+Qed.
+Lemma forallb_skipn' : forall (p : Z -> bool) n s, forallb p s = true -> forallb p (skipn n s) = true.
+Proof.
+  induction n as [|n IH]; intros [|x t] H; cbn [skipn forallb] in *; auto.
+  apply andb_prop in H. destruct H as [_ H2]. apply IH. exact H2.
+Qed.
+
+Lemma wrap_step_forallb : forall (p : Z -> bool) width chunks lines chunks' lines',
+  wrap_step width chunks lines = (chunks', lines') ->
+  forallb (forallb p) chunks = true -> forallb (forallb p) lines = true ->
+  forallb (forallb p) chunks' = true /\ forallb (forallb p) lines' = true.
+Proof.
+  intros p width chunks lines chunks' lines' H Hc Hl. unfold wrap_step in H.
+  set (hl := match lines with [] => false | _ => true end) in *.
+  assert (D : forallb (forallb p) (drop_first_ws chunks hl) = true).
+  { unfold drop_first_ws. destruct chunks as [|c0 r0]; [reflexivity|].
+    destruct (is_ws_chunk c0 && hl); [|exact Hc]. cbn [forallb] in Hc. apply andb_prop in Hc. tauto. }
+  destruct (take_fit width (drop_first_ws chunks hl) [] 0%nat) as [[cur len] rest] eqn:T.
+  apply take_fit_spec in T; [|reflexivity|lia].
+  destruct T as (_ & _ & _ & (taken & T4 & T5) & _). rewrite app_nil_r in T4. subst cur.
+  rewrite T5, forallb_app in D. apply andb_prop in D. destruct D as [D1 D2].
+  assert (HL : forall cur' ch3, handle_long width (rev taken, len, rest) = (cur', ch3) ->
+               forallb (forallb p) cur' = true /\ forallb (forallb p) ch3 = true).
+  { intros cur' ch3 E. unfold handle_long in E.
+    assert (R : forallb (forallb p) (rev taken) = true).
+    { rewrite forallb_forall in *. intros x Hx. apply D1. apply in_rev. exact Hx. }
+    destruct rest as [|c r]; [inversion E; subst; auto|].
+    cbn [forallb] in D2. apply andb_prop in D2. destruct D2 as [C1 C2].
+    destruct (width <? length c)%nat; inversion E; subst.
+    - split; apply andb_true_intro; split; auto using forallb_firstn', forallb_skipn'.
+    - split; [exact R|]. apply andb_true_intro; split; auto. }
+  destruct (handle_long width (rev taken, len, rest)) as [cur' ch3] eqn:E.
+  destruct (HL _ _ eq_refl) as [H1 H2].
+  assert (DL : forallb (forallb p) (drop_last_ws cur') = true).
+  { unfold drop_last_ws. destruct cur' as [|l t]; [reflexivity|]. destruct (is_ws_chunk l); [|exact H1].
+    cbn [forallb] in H1. apply andb_prop in H1. tauto. }
+  destruct (drop_last_ws cur') as [|x y] eqn:Q; inversion H; subst; split; auto.
+  apply andb_true_intro. split; [|exact Hl]. rewrite forallb_concat.
+  rewrite forallb_forall in *. intros z Hz. apply DL. apply in_rev. exact Hz.
+Qed.
+
+Lemma wrap_loop_forallb : forall (p : Z -> bool) fuel width chunks lines,
+  forallb (forallb p) chunks = true -> forallb (forallb p) lines = true ->
+  forallb (forallb p) (wrap_loop fuel width chunks lines) = true.
+Proof.
+  induction fuel as [|f IH]; intros width chunks lines Hc Hl; cbn [wrap_loop].
+  - rewrite forallb_forall in *. intros x Hx. apply Hl. apply in_rev. exact Hx.
+  - destruct chunks as [|c t].
+    + rewrite forallb_forall in *. intros x Hx. apply Hl. apply in_rev. exact Hx.
+    + destruct (wrap_step width (c :: t) lines) as [chunks' lines'] eqn:S.
+      destruct (wrap_step_forallb p _ _ _ _ _ S Hc Hl) as [A B]. apply IH; assumption.
+Qed.
+
+Theorem wrap_forallb : forall (p : Z -> bool) width text, forallb p (munge text) = true ->
+  forall r, In r (wrap width text) -> forallb p r = true.
+Proof.
+  intros p width text H. unfold wrap.
+  assert (A : forallb (forallb p) (wrap_loop (S (length text + length (split_chunks (munge text)))) width
+                                             (split_chunks (munge text)) []) = true).
+  { apply wrap_loop_forallb; [|reflexivity]. rewrite <- forallb_concat, concat_split_chunks. exact H. }
+  rewrite forallb_forall in A. exact A.
+Qed.
